@@ -380,6 +380,36 @@ func genC05(e *emitter, tier string, seed uint64) {
 			noteVerdict(e, ixExec(e, era|fBip16, append([]byte{0x76}, u...), lock), "p2sh")
 		}
 	}
+	// (f) OP_RETURN and what follows it: a top-level OP_RETURN ends the script (the rest is never decoded), one inside a
+	//     conditional does not; whether it is top-level must not depend on reserved words skipped on the way
+	for _, era := range eras {
+		prefixes := []string{"51", "510063656851", "5100636668", "51006300636868", "51516368", "5100636765686a", "510063676668", "51006365676851",
+			"5100636563686868", "51006366006368", "5151636700636568", "00630068", "5163", "510063", "51006365"}
+		tails := []string{"", "00", "4c", "4cff01", "0501", "4d0500aa", "4effffffff", "5151", "68", "6751", "ff", "65", "ab"}
+		for _, p := range prefixes {
+			for _, t := range tails {
+				for _, close := range []string{"", "68", "6868"} {
+					l := mustHex(p + "6a" + t + close)
+					noteVerdict(e, ixExec(e, era, nil, l), "return-tail")
+					noteVerdict(e, ixExec(e, era, l, []byte{0x51}), "return-tail")
+				}
+			}
+		}
+	}
+	// (g) a P2SH-shaped output with an unlocking script that is not push-only: refused where pay-to-script-hash exists
+	//     (BIP16 flag before Genesis) or under SIGPUSHONLY, an ordinary hash puzzle otherwise
+	for _, redeem := range [][]byte{{0x51}, {0x00}, {0x51, 0x51, 0x87}, {0x6a}, r.bytes(20)} {
+		lock := append(append([]byte{0xa9, 0x14}, hash160(redeem)...), 0x87)
+		unlocks := [][]byte{pushOf(redeem), append([]byte{0x51, 0x75}, pushOf(redeem)...), append(pushOf(redeem), 0x61),
+			append(pushOf(redeem), 0x76, 0x75), append([]byte{0x51}, pushOf(redeem)...), append([]byte{0x51, 0x61}, pushOf(redeem)...)}
+		for _, u := range unlocks {
+			for _, fl := range []int{0, fBip16, fSigPushOnly, fBip16 | fSigPushOnly, fBip16 | fCleanStack} {
+				for _, era := range eras {
+					noteVerdict(e, ixExec(e, era|fl, u, lock), "p2sh-shaped")
+				}
+			}
+		}
+	}
 	// (e) every push form in minimal and non-minimal encodings under MINIMALDATA
 	for _, era := range eras {
 		for _, fl := range []int{0, fMinimalData} {
